@@ -64,15 +64,20 @@ def showDS (ds : DS) : String :=
   let sr := ds.refs.map (fun r => s!"[{hexd r.dir},{r.id},{showNats r.rows}]")
   s!"files={showList sf};refs={showList sr};agree={if agree ds then 1 else 0}"
 
-def stepDS (ds : DS) (op : String) : Except String DS :=
+def parseOp (op : String) : Option Op :=
   match splitTop op with
-  | ["w", nd] => .ok (addNew { files := [], refs := [] } (parseNDs nd))
-  | ["a", nd] => .ok (addNew ds (parseNDs nd))
-  | ["o", nd, sp] => overwrite ds (parseNDs nd) (sp != "0")
-  | ["r", idxs, sp] => removeRGs ds ((splitTop idxs).map (·.toNat!)) (sp != "0")
-  | ["g", nd, sp] => writeSorted ds (parseNDs nd) (sp != "0")
-  | ["s"] => sortPartNames ds
-  | _ => .error "bad-op"
+  | ["w", nd] => some (.write (parseNDs nd))
+  | ["a", nd] => some (.append (parseNDs nd))
+  | ["o", nd, sp] => some (.overwrite (parseNDs nd) (sp != "0"))
+  | ["r", idxs, sp] => some (.remove ((splitTop idxs).map (·.toNat!)) (sp != "0"))
+  | ["g", nd, sp] => some (.writeSorted (parseNDs nd) (sp != "0"))
+  | ["s"] => some .sortNames
+  | _ => none
+
+def stepDS (ds : DS) (op : String) : Except String DS :=
+  match parseOp op with
+  | some o => step ds o
+  | none => .error "bad-op"
 
 def handleDs (op : String) (a : Args) : String :=
   match op with
